@@ -4,16 +4,19 @@ class P(vlib.Prop):
     id = "C02"
     rule = ("stage c02: a corpus of hand-picked universes first (every known-finding replay C02-F1..F6, the shapes of repo_test.go: several providers "
             "with priorities, cycles, self-dependencies, ! conflicts, origin/installed-version preference, pinned repositories, all six operators, "
-            "install_if with several/chained/versioned triggers, a member excluded by another member's conflict entry and the locks of that result (C09-F6), a dependency with an "
+            "install_if with several/chained/versioned triggers (the replays of the fixed findings C08-F1/F3, chains through packages listed before their triggers, name=version keys right / wrong / "
+            "shadowed by an unversioned key, entries with other operators and on provided names, two versions under one key), a member excluded by another member's conflict entry and the locks of that result (C09-F6), a dependency with an "
             "unknown operator), then three generated streams of in-memory repository universes (3-8 names in the quick "
             "tier, 3-12 in the thorough tier, 1-4 versions per name, 1-3 indexes some pinned, versioned and unversioned provides of virtual and real names, "
             "provider priorities, shared origins, cycles, ! conflicts, so: names, duplicates across repositories): (1) the envelope of c02_closed_partial by "
-            "construction, (2) general universes, 35% with up to three install_if packages (single, double, versioned and chained triggers), (3) malformed: "
+            "construction, (2) general universes, 35% with 1-8 install_if packages (single, double and triple triggers, name=version and other operators, chains x-doc -> x-doc-more, entries on "
+            "provided names, two versions under one key, packages placed before their triggers), (3) malformed: "
             "unparsable versions and constraint strings, missing names, !requests. Five worlds per universe (1-4 requests, all six operators, pins, virtuals, "
             "duplicates). Every world is resolved by the REAL apk.NewPkgResolver(...).GetPackagesWithDependencies on fresh index objects (allArchs alternately "
-            "{arch: indexes} and nil); the result is the ordered list of package identities (position in the flattened universe) or 'error'. In Coq each case "
-            "is compared with Model/Resolver.v (install_if map order: the Go list must equal resolve ... scheds for SOME schedule that a Go run can follow, "
-            "found by search and re-checked with legal_sched_b) and the verified validator closed_check runs on the IMPLEMENTATION's list. A validator failure "
+            "{arch: indexes} and nil); universes with install_if packages are resolved four more times and every answer must be the first one (a difference is reported and "
+            "recorded as a run of its own); the result is the ordered list of package identities (position in the flattened universe) or 'error'. In Coq each case "
+            "must EQUAL Model/Resolver.v (a function of universe, world and initial disqualification set: the install_if loop walks the dependency list by index since fix "
+            "c03e0c0, no schedule is searched any more) and the verified validator closed_check runs on the IMPLEMENTATION's list. A validator failure "
             "inside the envelope is tagged in-envelope/... and is always a VIOLATION. A case is non-trivial when some world resolves to two or more packages; "
             "distinct = distinct case terms.")
     stages = (
@@ -23,13 +26,13 @@ class P(vlib.Prop):
     assumptions = (
         "a universe is the list of all packages of all indexes in (index, package) order with the index's pin name and repository URI attached to each package; package identity = position in that list (Go: *RepositoryPackage pointer)",
         "the two process-wide caches are not part of this model (fresh index objects per case; they belong to C08): dq0 is what a fresh disqualifyDifference returns",
-        "Go map iteration: (1) newPkgResolver's provider order for one name across different package names is modelled as first-occurrence order; it is observable only through bestPackage on candidates whose versions do not parse, which the generators avoid; (2) keys(options) only decides WHICH error is returned, errors are observed as a boolean; (3) `range added` in GetPackageWithDependencies is the explicit schedule parameter, quantified universally in every theorem",
+        "Go map iteration: (1) newPkgResolver's provider order for one name across different package names is modelled as first-occurrence order; it is observable only through bestPackage on candidates whose versions do not parse, which the generators avoid; (2) keys(options) only decides WHICH error is returned, errors are observed as a boolean; (3) the install_if loop of GetPackageWithDependencies no longer ranges over a map (fix c03e0c0): no schedule parameter is left",
         "the `conflicts []string` result and error texts are not observed",
         "cachedParseVersion / cachedResolvePackageNameVersionPin are memo tables of pure functions; the model parses each string once when the resolver is built",
         "version parsing, comparison and constraint parsing are the C03 model (Model/Version.v), tied to version.go by C03's own check",
     )
-    level_text = ("Theorems c02_nodup, c02_members_from_universe, c02_failure_is_error, c02_termination, c02_no_panic hold for every universe, world, initial disqualification set and "
-                  "every install_if schedule (unbounded) of an executable model of repo.go + filterPackages; c02_validator_decides proves the validator that is run on the "
+    level_text = ("Theorems c02_nodup, c02_members_from_universe, c02_failure_is_error, c02_termination, c02_no_panic hold for every universe, world and initial disqualification set "
+                  "(unbounded) of an executable model of repo.go + filterPackages; c02_validator_decides proves the validator that is run on the "
                   "implementation's results; c02_closed is REFUTED by five kernel-checked witnesses (findings C02-F1..F5, each replayed on the real code) and "
                   "c02_closed_partial proves that INSIDE the envelope (no install_if, no dependency on a self-provided name, one provider per name, version operators only on "
                   "package names) a successful result is closed in the full sense of the Spec — all four clauses, the closure of the dependencies of every member included "
